@@ -654,17 +654,25 @@ start:
 						} else {
 							s.setOuter(tuple.Tag, MaybeNil)
 						}
-						s.setOuter(v, s.get(tuple.Tag).Inner)
+						// In the default branch, the extracted value is the
+						// switched-over interface value itself.
+						s.set(v, s.get(tuple.Tag))
+					} else if typ, ok := tuple.Conds[idx].(*types.Basic); ok && typ.Kind() == types.UntypedNil {
+						// There is no Extract for a clause that consists of
+						// only the 'untyped nil' case. When nil shares its
+						// clause with other types, the extracted value is the
+						// switched-over interface value itself, which is nil.
+						s.set(v, ValueNilness{AlwaysNil, AlwaysNil})
 					} else {
-						// There is no Extract for the 'untyped nil' case,
-						// which means that executing any Extract from a type
-						// switch implies that the switched-over value wasn't a
-						// nil interface value.
+						// Executing any other Extract from a type switch
+						// implies that the switched-over value wasn't a nil
+						// interface value.
 						s.setOuter(tuple.Tag, NeverNil)
-						typ := tuple.Conds[idx]
-						if types.IsInterface(typ) && !typeparams.IsTypeParam(typ) {
+						if types.IsInterface(v.Type()) && !typeparams.IsTypeParam(v.Type()) {
 							// Succesfully type asserting to an interface type
-							// always produces a non-nil interface value.
+							// always produces a non-nil interface value. In a
+							// clause with multiple types, the extracted value
+							// is the switched-over interface value itself.
 							s.setInner(v, s.get(tuple.Tag).Inner)
 							s.setOuter(v, NeverNil)
 						} else {
